@@ -1,4 +1,4 @@
-import NbioVerif.Lemmas.ConnData
+import NbioVerif.Lemmas.ConnClose
 /-! ConnFull: the arming invariant (C04 safety core) and its preservation by every step -/
 namespace ConnFull
 
@@ -108,6 +108,34 @@ theorem invA_closeNow_grow {g : Cfg} {s t : S} (hi : InvA g s) (hg : Grow s t) :
   · rw [e2, e7, e8]; exact hi.cre
   · rw [e7, e4]; exact hi.cnr
 
+theorem invA_flip {g : Cfg} {s : S} (hi : InvA g s) : InvA g (flip s) := by
+  constructor <;> simp [flip]
+  · exact hi.nos
+  · exact hi.rr
+  · exact hi.cev
+  · exact hi.cre
+  · exact hi.cnr
+
+theorem invA_flip_grow {g : Cfg} {s t : S} (hi : InvA g s) (hg : Grow s t) : InvA g (flip t) := by
+  obtain ⟨e1, e2, e3, e4, e5, e6, e7, e8⟩ := E_fields hg.e
+  constructor <;> simp [flip]
+  · rw [e6, e2]; exact hi.nos
+  · rw [e2, e4]; exact hi.rr
+  · rw [e8, e7]; exact hi.cev
+  · rw [e2, e7, e8]; exact hi.cre
+  · rw [e7, e4]; exact hi.cnr
+
+/-- the teardown of a connection whose flag is set -/
+theorem invA_teardown {g : Cfg} {s : S} (hi : InvA g s) (htp : s.tearPending = true → s.closed = true) :
+    InvA g (teardown s) := by
+  unfold teardown
+  split
+  · rename_i ht
+    have hc := htp ht
+    exact ⟨fun h => by simp [hc] at h, fun h => by simp [hc] at h, hi.nos, hi.rr, fun h => by simp [hc] at h,
+      hi.cev, hi.cre, hi.cnr⟩
+  · exact hi
+
 theorem invA_finishCall {g : Cfg} {s : S} (r : S × Ret) (hi : InvA g s) (hc : s.closed = false) (hg : Grow s r.1) :
     InvA g (finishCall g r).1 := by
   unfold finishCall
@@ -115,10 +143,10 @@ theorem invA_finishCall {g : Cfg} {s : S} (r : S × Ret) (hi : InvA g s) (hc : s
   · simp only
     split
     · rename_i he
-      exact invA_grow hi hg (fun _ => isEmpty_eq_true he)
+      exact invA_grow hi (hg.trans (u := stopTimer r.1) ⟨rfl, rfl, rfl, id⟩) (fun _ => isEmpty_eq_true he)
     · rename_i he
       exact invA_arm hi hc hg (isEmpty_ne_true he)
-  · exact invA_closeNow_grow hi hg
+  · exact invA_flip_grow hi hg
 
 theorem grow_writeInner (g : Cfg) (s : S) (b : Bytes) (k : KAns) (hp : AllPos s.wl) :
     Grow s (writeInner g s b k).1 := by
@@ -276,11 +304,11 @@ theorem invK_flushLoop (g : Cfg) : ∀ (fuel : Nat) (s : S) (ks : List KAns),
     · -- drained: c.resetRead()
       rename_i hwl
       obtain ⟨k1, k2, k3, k4, k5⟩ := hk
-      have hD := D_cResetRead g s
+      have hD := D_cResetRead g (stopTimer s)
       simp only [D, Prod.mk.injEq] at hD
       obtain ⟨d1, d2, d3, _, _, _⟩ := hD
       cases hm : g.mode <;> cases hr : s.reg <;>
-        (constructor <;> simp_all [cResetRead, pResetRead, kctl])
+        (constructor <;> simp_all [cResetRead, pResetRead, kctl, stopTimer])
     · rename_i d off tl hwl
       simp only
       split
@@ -336,7 +364,7 @@ theorem calm_flushLoop (g : Cfg) : ∀ (fuel : Nat) (s : S) (ks : List KAns), Ca
     intro s ks
     unfold flushLoop
     split
-    · exact calm_cResetRead g s
+    · exact Calm.trans (t := stopTimer s) ⟨rfl, rfl, rfl, id, rfl, rfl⟩ (calm_cResetRead g _)
     · simp only
       split
       · exact ih s ks
@@ -599,7 +627,7 @@ theorem invA_evEnd (g : Cfg) (s : S) (hi : InvA g s) : InvA g (evEnd g s) := by
         have hce := h1.cev
         have hcr := h1.cre
         have hcn := h1.cnr
-        constructor <;> simp [closeNow]
+        constructor <;> simp [flipWE, flip, stopTimer]
         · exact hn
         · exact hr
         · exact hce
@@ -607,26 +635,69 @@ theorem invA_evEnd (g : Cfg) (s : S) (hi : InvA g s) : InvA g (evEnd g s) := by
         · exact hcn
     · exact h1
 
-theorem invA_close (g : Cfg) (s : S) (hi : InvA g s) : InvA g (close s) := by
-  unfold close
+/-- the arming invariant does not mention the deadline fields -/
+theorem InvA.timer {g : Cfg} {s t : S} (h : InvA g s) (hd : D t = D s) (he : E t = E s) : InvA g t :=
+  invA_grow h ⟨he, by simpa [D] using (congrArg (·.1) hd), by simpa [D] using (congrArg (·.2.1) hd),
+    fun hne => by rw [show t.wl = s.wl by simpa [D] using (congrArg (·.2.2.1) hd)]; exact hne⟩
+    (fun hw => by rw [show t.wl = s.wl by simpa [D] using (congrArg (·.2.2.1) hd)]; exact hw)
+
+theorem invA_flipWE {g : Cfg} {s : S} (hi : InvA g s) : InvA g (flipWE s) :=
+  invA_flip (hi.timer (t := stopTimer s) rfl rfl)
+
+theorem invA_flipClosed (g : Cfg) (s : S) (hi : InvA g s) : InvA g (flipClosed s) := by
+  unfold flipClosed
   split
   · exact hi
-  · exact invA_closeNow hi
+  · exact invA_flipWE hi
 
-theorem invA_step (g : Cfg) (s : S) (op : Op) (hd : InvD g s) (hi : InvA g s) : InvA g (step g s op) := by
+theorem invA_setWriteDeadline (g : Cfg) (s : S) (z : Bool) (hi : InvA g s) : InvA g (setWriteDeadline s z) := by
+  unfold setWriteDeadline
+  split
+  · exact hi
+  · exact hi.timer rfl rfl
+
+theorem invA_timerExpire (g : Cfg) (s : S) (hi : InvA g s) : InvA g (timerExpire s) := by
+  unfold timerExpire
+  split
+  · exact hi.timer rfl rfl
+  · exact hi
+
+theorem invA_timerFire (g : Cfg) (s : S) (hi : InvA g s) : InvA g (timerFire s) := by
+  unfold timerFire
+  split
+  · exact hi
+  · split
+    · exact hi.timer rfl rfl
+    · exact invA_flipWE (hi.timer (t := { s with firePending := false }) rfl rfl)
+
+theorem invA_step (g : Cfg) (s : S) (op : Op) (hd : InvD g s) (hi : InvA g s)
+    (htp : s.tearPending = true → s.closed = true) : InvA g (step g s op) := by
   cases op with
-  | write b k => exact invA_write g s b k hd hi
-  | writev bs k => exact invA_writev g s bs k hd hi
-  | sendfile off len ks => exact invA_sendfile g s off len ks hi
-  | register => exact invA_register g s hi
-  | registerDial => exact invA_registerDial g s hi
-  | evTake o i e ks => exact invA_evTake g s o i e ks hi
+  | write b ks => exact (invA_write g s b _ hd hi).timer (D_ghost _ _ _) (E_ghost _ _ _)
+  | writev bs ks => exact (invA_writev g s bs _ hd hi).timer (D_ghost _ _ _) (E_ghost _ _ _)
+  | sendfile off len ks => exact (invA_sendfile g s off len ks hi).timer (D_ghost _ _ _) (E_ghost _ _ _)
+  | register => exact (invA_register g s hi).timer (D_ghost _ _ _) (E_ghost _ _ _)
+  | registerDial => exact (invA_registerDial g s hi).timer (D_ghost _ _ _) (E_ghost _ _ _)
+  | evTake o i e ks => exact (invA_evTake g s _ i e ks hi).timer (D_ghost _ _ _) (E_ghost _ _ _)
   | evEnd => exact invA_evEnd g s hi
-  | close => exact invA_close g s hi
+  | flipClosed => exact invA_flipClosed g s hi
+  | teardown => exact invA_teardown hi htp
+  | setWriteDeadline z => exact invA_setWriteDeadline g s z hi
+  | timerExpire => exact invA_timerExpire g s hi
+  | timerFire => exact invA_timerFire g s hi
 
-theorem inv_run (g : Cfg) (ops : List Op) : ∀ (s : S), InvD g s → InvA g s → InvD g (run g s ops) ∧ InvA g (run g s ops) := by
+/-- all invariants, for every op sequence -/
+theorem inv_run3 (g : Cfg) (ops : List Op) : ∀ (s : S), InvD g s → InvA g s → InvT s →
+    InvD g (run g s ops) ∧ InvA g (run g s ops) ∧ InvT (run g s ops) := by
   induction ops with
-  | nil => intro s h1 h2; exact ⟨h1, h2⟩
-  | cons op ops ih => intro s h1 h2; exact ih _ (invD_step g s op h1) (invA_step g s op h1 h2)
+  | nil => intro s h1 h2 h3; exact ⟨h1, h2, h3⟩
+  | cons op ops ih =>
+    intro s h1 h2 h3
+    exact ih _ (invD_step g s op h1 h3.tp) (invA_step g s op h1 h2 h3.tp) (invT_step g s op h3)
+
+theorem inv_run (g : Cfg) (ops : List Op) : ∀ (s : S), InvD g s → InvA g s → InvT s →
+    InvD g (run g s ops) ∧ InvA g (run g s ops) := by
+  intro s h1 h2 h3
+  exact ⟨(inv_run3 g ops s h1 h2 h3).1, (inv_run3 g ops s h1 h2 h3).2.1⟩
 
 end ConnFull
